@@ -27,7 +27,7 @@ from rpyc.core.service import VoidService
 from rpyc.core import consts, brine
 from rpyc.utils.helpers import BgServingThread
 schedule, lines, nwait, with_bg = %(schedule)r, %(lines)r, %(nwait)d, %(with_bg)r
-codes = {"wait": AsyncResult.wait.__code__, "call": AsyncResult.__call__.__code__, "serve": Connection.serve.__code__,
+codes = {"areq": Connection._async_request.__code__, "wait": AsyncResult.wait.__code__, "call": AsyncResult.__call__.__code__, "serve": Connection.serve.__code__,
          "dispatch": Connection._dispatch.__code__, "seqcb": Connection._seq_request_callback.__code__,
          "bg": BgServingThread._bg_server.__code__}
 gate = Gate(dict((codes[k], set(v)) for k, v in lines.items()), timeout=4.0)
@@ -68,20 +68,23 @@ conn = Connection(VoidService(), chan)
 conn._recv_event = GatedCondition()
 results = []
 for r in range(1, nwait + 1):
-    res = AsyncResult(conn); res.set_expiry(30); conn._request_callbacks[r] = res; results.append(res)
+    res = AsyncResult(conn); res.set_expiry(30); results.append(res)
+conn._get_seq_id = lambda: gate.tids.get(threading.get_ident()) + 1      # thread t issues request t + 1, as in the model
 outcome = {}
 def waiter(i):
     def run():
+        conn._async_request(consts.HANDLE_PING, (), results[i])          # issue the request (registers the result as its callback)
         results[i].wait(); outcome[i] = "returned"
     return run
 bg = object.__new__(BgServingThread); bg._conn = conn; bg._active = True; bg._callback = None
 fns = [waiter(i) for i in range(nwait)] + ([bg._bg_server] if with_bg else [])
 gate.start(fns)
 mismatch = None
+replied = set()
 try:
     for (actor, pos, detail) in schedule:
         if actor == "peer":
-            chan.inbox.append(brine.dump((consts.MSG_REPLY, detail, (consts.LABEL_VALUE, 40 + detail)))); continue
+            chan.inbox.append(brine.dump((consts.MSG_REPLY, detail, (consts.LABEL_VALUE, 40 + detail)))); replied.add(detail); continue
         at = gate.position(actor)
         want = "cv-wait" if detail.endswith(":wake") else pos
         if at != want:
@@ -229,11 +232,11 @@ def check_c13(run):
     K = 60
     stats = [0, 0]
     # (waiters, background thread, pre-emption bound, statement-steps, deadlock query?)
-    configs = [(1, True, 1, 60, True), (2, False, 1, 40, False)]
+    configs = [(1, True, 1, 64, True), (2, False, 1, 48, False)]
     if thorough:
         # (the 2-waiter deadlock query at 60 steps / 2 pre-emptions does not finish within 20 min: the lost-wake-up clause of the
         # safety query covers the 2-waiter "nobody will notify" states, the deadlock query stays with the 1-waiter configuration)
-        configs = [(1, True, None, 60, True), (2, False, 2, 50, False)]
+        configs = [(1, True, None, 64, True), (2, False, 2, 46, False)]
 
     def mk(nw, bg, mp, K, with_deadlock):
         def ob(o):
@@ -247,7 +250,7 @@ def check_c13(run):
             stats[0] += K * model.T
             stats[1] += K * model.T * len(prog.nodes)
             # safety: no frame dispatched twice, no crossed replies, no early return, no lost wake-up
-            r, m = bmc.check(lambda S: z3.Or(model.bad_safety(S), model.lost_wakeup(S)), at="any", timeout_ms=2400000, cubes=cubes)
+            r, m = bmc.check(lambda S: z3.Or(model.bad_safety(S), model.lost_wakeup(S)), at="any", timeout_ms=3600000, cubes=cubes)
             o.samples.append({"query": "reachable: duplicate dispatch / crossed reply / return without reply / lost wake-up", "result": r,
                               "solver_s": round(bmc.last_time, 1)})
             if r == "unknown":
@@ -313,6 +316,10 @@ for i, res in enumerate(results):
     if i in outcome and not res._is_ready: bad.append("wait() of request %d returned without its reply" % (i + 1))
 if len(conn._request_callbacks) + sum(1 for r in results if r._is_ready) != nwait: bad.append("a reply was delivered twice or lost")
 if chan.inbox and not left and not stalls: bad.append("a reply sits in the inbox and nobody is receiving")
+waiting_frames = [brine.load(f)[1] for f in chan.inbox]
+for r in sorted(replied):
+    if r not in waiting_frames and not results[r - 1]._is_ready:
+        bad.append("the reply to request %d was received and dispatched, yet the request has not completed (the reply reached nobody)" % r)
 '''
 
 
